@@ -1,4 +1,5 @@
 import FxVerif.Gen.C07
+import FxVerif.Model.C07Escrow
 /-!
 # C07 (crosschain half) — how the model accounts for every panic site of the crosschain end-blocker
 
@@ -131,5 +132,35 @@ def orderOf (phase : String) : List String :=
 
 /-- the sites of x/evm `Keeper.BeginBlock` the classification above accounts for -/
 def evmBeginAccounted : List String := ["k.EVMBlockConfig"]
+
+/-! ## gov deposit escrow: the switches of `Model.C07Escrow.Code`, computed from the regenerated statement lists -/
+
+def posOf (x : String) : List String → Option Nat
+  | [] => none
+  | y :: r => if x == y then some 0 else (posOf x r).map (· + 1)
+
+/-- `a` and `b` both occur and `a` comes first -/
+def comesBefore (a b : String) (l : List String) : Bool :=
+  match posOf a l, posOf b l with
+  | some i, some j => i < j
+  | _, _ => false
+
+/-- what the body of an escrow check has to do: sum the amount of EVERY deposit record (`Walk` with a nil range over
+`keeper.Deposits`), read the balances of the gov module account, answer `balances.IsAllGTE(total)` -/
+def escrowCheckBody : List String :=
+  ["walk:keeper.Deposits:nil", "sum:total+=deposit.Amount", "ret:false", "addr:govtypes.ModuleName",
+   "ret:keeper.bankKeeper.GetAllBalances(ctx, govAddr).IsAllGTE(total)"]
+
+/-- the code as it is: `AddDeposit` refuses the gov account before it transfers or records anything; the pass branch runs a
+check with the body above on the cache context after the message loop and before the `if err == nil { writeCache() } else { FAILED }`;
+the deposits of a tallied proposal are settled (unless an expedited one is converted) before the outcome switch -/
+def govEscrowCode : FxVerif.Model.C07Escrow.Code :=
+  { addDepositRefusesGov :=
+      comesBefore "refuse:govDepositor" "transfer" addDepositSteps && comesBefore "refuse:govDepositor" "record" addDepositSteps,
+    passChecksEscrow :=
+      govEscrowChecks.any fun (name, body) =>
+        body == escrowCheckBody && comesBefore "msgLoop" ("check:" ++ name) govPassBranch &&
+          comesBefore ("check:" ++ name) "commitIfOk" govPassBranch,
+    settleBeforeMsgs := comesBefore "settle:!(proposal.Expedited && !passes)" "outcomeSwitch" govActiveSteps }
 
 end FxVerif.Model.C07
